@@ -16,7 +16,7 @@ META = {
     "bounds": [
         "distorted concrete meshes with interior points for hex8/20/27, quad4/8/9, tet4, straight-edged tet10, tri3, tri6 (3-D and plane strain), and CURVED quad8/quad9/hex20/hex27 cells (mid points moved independently of the corners) with the templates' default rules; symbolic affine map Fbar (9 / 4 variables)",
         "(a) nodal values u = (Fbar - I) X give F = Fbar at every quadrature point (1e-9); (b) with a uniform stress Pbar (9 symbolic components; this is what any material returns at a uniform F) the internal "
-        "nodal forces vanish at every interior point (patch test); (c) the real dof.uniaxial / dof.biaxial on a 1 x 2 x 4 block (distorted, boundary-aligned) for every choice of loaded axes, with and "
+        "nodal forces vanish at every interior point (patch test); (c) the real dof.uniaxial / dof.biaxial on a 1 x 2 x 4 block (distorted, boundary-aligned; lower corner at (0.5, -1, 2) when no symmetry planes are used) for every choice of loaded axes, with and "
         "without symmetry planes, symbolic moves: the prescribed unknowns and values are the restriction of a homogeneous stretch, the moved faces / symmetry planes are complete, all free unknowns are in "
         "equilibrium when Pbar has only the loaded normal components, tools.force on each moved face = P_cc times its reference area",
         "(d) ViewMaterial uniaxial / planar / biaxial with scipy.optimize.root as a contract stub (returns x with fun(x) = 0) and ViewMaterialIncompressible: the returned curve value is P11 of the real model at "
@@ -126,7 +126,8 @@ def case_patch(ctx, kind):
 
 
 def case_loadcase(ctx, kind, which, axes=(0, 1), sym=True):
-    """the real dof.uniaxial / dof.biaxial on a block with UNEQUAL edge lengths (1 x 2 x 4), for every choice of loaded axes and
+    """the real dof.uniaxial / dof.biaxial on a block with UNEQUAL edge lengths (1 x 2 x 4; shifted to the lower corner
+    (0.5, -1, 2) when there are no symmetry planes), for every choice of loaded axes and
     with / without symmetry planes: (1) the prescribed unknowns and their values are the restriction of a homogeneous stretch
     u_c = s_c (X_c - o_c) (loaded axes: s_c, o_c from the moved / fixed faces; other axes: only u_c = 0 on the plane X_c = 0),
     the moved faces are complete; (2) with the uniform stress of a homogeneous state (only loaded normal components) all free
@@ -135,6 +136,9 @@ def case_loadcase(ctx, kind, which, axes=(0, 1), sym=True):
     with ctx.concrete():
         m = patch_mesh(kind)
         m.points[:] = m.points * edge[: m.dim]
+        if not sym:
+            # without symmetry planes the block need not touch the coordinate planes: every axis gets another lower face position
+            m.points[:] = m.points + np.array([0.5, -1.0, 2.0])[: m.dim]
         region = REG[kind](m)
         d = m.dim
         field = fem.FieldContainer([fem.Field(region, dim=3) if d == 3 else fem.FieldPlaneStrain(region, dim=2)])
